@@ -68,6 +68,8 @@ func (s *LocalBackend) Upload(ctx context.Context, key string, data []byte, opts
 			}
 			s.log.WarnContext(ctx, "local file already exists", "key", key, "path", path)
 			return nil
+		} else if !os.IsNotExist(err) {
+			return fmtErrorf("failed to open immutable file %q to compare it: %w", path, err)
 		}
 		// As a best effort, try to set the immutable flag if supported by the
 		// OS, and the process has the appropriate capabilities.
